@@ -209,7 +209,35 @@ def _b(x):
     return z3.BoolVal(x) if isinstance(x, bool) else x
 
 
-def check_function(name, code, timeout_ms=20000, want_stack=True):
+def reaches_return(code, steps, timeout_ms):
+    n = len(code)
+    S, D, H, H2 = z3.Ints("S D H H2")
+    fp = z3.Fixedpoint()
+    fp.set(engine="spacer")
+    fp.set("timeout", int(timeout_ms))
+    R = [z3.Function("R%d" % i, z3.IntSort(), z3.IntSort(), z3.IntSort(), z3.BoolSort()) for i in range(n + 1)]
+    Goal = z3.Function("Goal", z3.BoolSort())
+    for r in R:
+        fp.register_relation(r)
+    fp.register_relation(Goal)
+    fp.declare_var(S, D, H, H2)
+    fp.rule(R[0](0, 0, 0))
+    for i in range(n):
+        for tgt, guard, upd in steps[i][0]:
+            if tgt is None:
+                fp.rule(Goal(), R[i](S, D, H))
+                continue
+            g = _b(guard(S, D, H))
+            if upd == "havoc":
+                fp.rule(R[tgt](S, D, H2), z3.And(R[i](S, D, H), H2 >= 0))
+                continue
+            s2, d2, h2 = upd(S, D, H)
+            fp.rule(R[tgt](s2, d2, h2), z3.And(R[i](S, D, H), g))
+    fp.rule(Goal(), R[n](S, D, H))
+    return fp.query(Goal()) == z3.sat
+
+
+def check_function(name, code, timeout_ms=20000, want_stack=True, vacuity_witness=False):
     """-> dict(status 'ok'|'violation'|'unknown'|'unmodelled', violations [...], stats)"""
     n = len(code)
     steps = []
@@ -229,6 +257,11 @@ def check_function(name, code, timeout_ms=20000, want_stack=True):
         kinds.append("operand-stack")
     res = run_spacer(name, code, steps, set(kinds), timeout_ms)
     res["operand_stack_decided"] = "operand-stack" in kinds
+    if res["status"] == "ok" and vacuity_witness:
+        # vacuity guard: the same clauses must be able to REACH a return (a model in which nothing is reachable proves everything)
+        if not reaches_return(code, steps, timeout_ms):
+            return {"status": "unknown", "reason": "vacuity witness failed: no `ret` is reachable in the encoding", "violations": []}
+        res["vacuity_witness"] = "a return is reachable"
     if res["status"] == "violation":
         # which one(s)?  re-query per kind (and per site for the report)
         found = []
